@@ -13,7 +13,7 @@ ASSUME = [
     "Rbac.tla transcribes C02's statement; an absent section lists nothing; where the statement is silent "
     "(a request repeating a query key with different values) both readings are accepted (Rbac!Ambiguous)",
     "letter case = ASCII letters; names, users, groups, process names and exe paths compare exactly",
-    "universe: <=2 privileges/roles/identities, 1 assignment, names from pools with dangling and duplicate names",
+    "universe: <=2 privileges/roles/identities/assignments, names from pools with dangling and duplicate names",
 ]
 
 
@@ -89,7 +89,7 @@ def run(c):
     thorough = c.tier == "thorough"
     build.cargo_build("agent")
     cases = []
-    for sl in ("match", "grant", "dup"):
+    for sl in ("match", "grant", "asg", "dup"):
         cfg = "RbacGen_%s.cfg" % sl
         if thorough and sl == "grant":
             cfg = "RbacGen_grant_full.cfg"
